@@ -1,12 +1,52 @@
 #!/usr/bin/env python3
 """Translator (tie T): regenerate coq/gen/Constants.v from /repo's *working tree*.
 
-Extracts declarative data only (constants, tables, match-arm tables, byte sets, and the offset arithmetic of
-iterator.rs / builder.rs as expressions); control flow is
-hand-modelled and tied by the correspondence check.  Exits non-zero (message on stderr) when a
-pattern is not found: the tie is then reported broken by bin/check.
+Extracts declarative data (constants, tables, match-arm tables, byte sets), the offset arithmetic of iterator.rs / builder.rs,
+and -- table ANCHORS below -- "anchored expressions": integer expressions and boolean conditions of functions.rs, selector.rs
+and number.rs, translated Rust -> Gallina.  Control flow is hand-modelled and tied by the correspondence check; the model
+functions CALL the generated definitions, so when a source expression changes the model changes and the proofs over it
+(I32.v, OffsetTies.v, *Proofs.v, Props/*.v) are re-checked against what the code says now.
+Exits 2 (message on stderr) when a pattern is not found / found a different number of times / uses unsupported syntax:
+the tie is then reported broken by bin/check.  Never a guess.
 
 Usage: translate_consts.py [--repo /repo] [--out file]   (prints to stdout when --out is absent)
+       translate_consts.py [--repo /repo] --selftest      (mutation self-test of the anchored expressions, see MUTATIONS)
+
+ANCHORED EXPRESSIONS (rows of ANCHORS; the row format is documented above the table).  Generated name -> source site:
+ G1 index arithmetic, Z-valued, each with NAME_SAFE : Prop = its range obligations in the machine type (proved in coq/I32.v,
+    exported by coq/Props/C20.v); _T = JSON-text (Value) branch, _B = JSONB byte branch of the same function
+   DBI_T_RESOLVE DBI_T_KEEP            functions.rs delete_by_index        `if index < 0 { len + index } else { index }`, `index >= 0 && index < len`
+   DBI_B_RESOLVE DBI_B_SKIP            functions.rs delete_jsonb_by_index  same resolve, `index < 0 || index >= len`
+   AI_NONARRAY_LEN AI_RESOLVE AI_CLAMP functions.rs array_insert_jsonb     `1`, `if pos < 0 { len + pos } else { pos }`, the clamp `.. as usize`
+   GBK_T_REJECT GBK_T_INDEX            functions.rs get_by_keypath (1st)   `*idx > length || length + *idx < 0`, `if *idx >= 0 { .. } else { (length + *idx) as usize }`
+   GBK_B_REJECT GBK_B_INDEX            functions.rs get_by_keypath (2nd)   the same two, byte branch
+   DKP_T_RESOLVE DKP_T_SKIP            functions.rs delete_value_array_by_keypath
+   DKP_B_RESOLVE DKP_B_SKIP            functions.rs delete_jsonb_array_by_keypath
+   CI_LAST CI_INRANGE                  selector.rs convert_index           `length + *idx as i64 - 1`, `idx >= 0 && idx < length`
+   CS_START_LAST CS_END_LAST CS_EMPTY CS_LO CS_HI   selector.rs convert_slice
+   SBI_NONEMPTY (require only)         selector.rs select_by_indices       `if ty != ARRAY_CONTAINER_TAG || length == 0 { return Ok(()); }`
+   + `require`: the declarations fixing the machine types (`index: i32`, `let len = .. as i32;`, `let length = length as i64;`)
+ G2 offsets / strides / loop bounds of the read-only byte walkers, N-valued (usize)
+   JBI_REJECT JBI_JOFF JBI_VOFF JBI_ADVANCE JBI_JSTEP        get_jentry_by_index
+   JBN_JOFF JBN_VOFF JBN_KOFF JBN_JSTEP1 JBN_JSTEP2           get_jentry_by_name
+   OKS_JOFF OKS_KOFF OKS_PREV_KOFF OKS_JSTEP                  object_keys
+   OEA_OFF0 OEA_WORDS OEA_STEP                                object_each
+   AVS_JOFF AVS_VOFF AVS_JSTEP                                array_values
+   CPR_*                                                      compare (the literal offsets 4 / 8 of the top-level function)
+   CMP_ARR_LSKIP .. CMP_OBJ_RSKIP                             compare_container (`&left[4..]`, `&right[4..]`)
+   CMA_JOFF CMA_LVOFF CMA_RVOFF CMA_LEN CMA_JSTEP             compare_array
+   CMO_LJOFF .. CMO_RKOFF CMO_LEN CMO_xJSTEP1/2               compare_object
+   CVC_ARR_SKIP CVC_OBJ_SKIP                                  scalar_convert_to_comparable (`&value[4..]`)
+   CVA_JOFF CVA_VOFF CVA_JSTEP / CVO_JOFF CVO_VOFF CVO_KOFF CVO_JSTEP1/2   array_ / object_convert_to_comparable
+   CTS_SC_JOFF CTS_SC_VOFF CTS_ARR_JOFF CTS_ARR_VOFF CTS_OBJ_JOFF CTS_OBJ_KOFF CTS_OBJ_VOFF CTS_OBJ_JSTEP   container_to_string
+   STS_JSTEP                                                  scalar_to_string
+   SOV_OFF SAV_OFF SBN_OFF SBI_OFF BSA_RESERVE BSA_JSTEP      selector.rs select_object_values / select_array_values / select_by_name /
+                                                              select_by_indices / build_scalar_array
+   (coq/OffsetTies.v proves that all of them and ITER_* / BLD_* describe one layout)
+ G3 width selection of Number::compact_encode
+   CE_INT_ZERO CE_INT_FITS1..3 (Z)  CE_UINT_ZERO CE_UINT_FITS1..3 (N)   the range tests `*v >= i8::MIN.into() && *v <= i8::MAX.into()` ...
+   CE_INT_W1..4 CE_UINT_W1..4 (nat)                                      bytes of the type written: `(*v as i8).to_be_bytes()` ..., `Int64(i64)`
+   (used by int_width / uint_width / compact_encode of coq/Num.v; NumProofs.v: round trip and shortest form)
 """
 import re, sys, argparse, os
 
@@ -87,22 +127,49 @@ def hex_table(repo):
     return vals
 
 
+def match_brace(src, i):
+    """index just past the `}` matching the `{` at src[i]; string literals, char / byte literals are skipped"""
+    depth = 0
+    j = i
+    n = len(src)
+    while j < n:
+        c = src[j]
+        if c == '"':
+            j += 1
+            while j < n and src[j] != '"':
+                j += 2 if src[j] == '\\' else 1
+        elif c == "'":
+            m = re.match(r"'(?:\\(?:x[0-9A-Fa-f]{2}|u\{[0-9A-Fa-f]+\}|.)|[^'\\])'", src[j:j + 12])
+            if m:
+                j += m.end() - 1
+        elif c == '{':
+            depth += 1
+        elif c == '}':
+            depth -= 1
+            if depth == 0:
+                return j + 1
+        j += 1
+    return -1
+
+
 def fn_body(src, name):
     m = re.search(r'fn\s+' + re.escape(name) + r'\b', src)
     if not m:
         raise TranslateError('function %s not found' % name)
     i = src.index('{', m.end())
-    depth = 0
-    j = i
-    while j < len(src):
-        if src[j] == '{':
-            depth += 1
-        elif src[j] == '}':
-            depth -= 1
-            if depth == 0:
-                return src[i:j + 1]
-        j += 1
-    raise TranslateError('unbalanced braces in %s' % name)
+    j = match_brace(src, i)
+    if j < 0:
+        raise TranslateError('unbalanced braces in %s' % name)
+    return src[i:j]
+
+
+def fn_text(src, name):
+    """signature + body of fn `name`"""
+    m = re.search(r'fn\s+' + re.escape(name) + r'\b', src)
+    if not m:
+        raise TranslateError('function %s not found' % name)
+    body = fn_body(src, name)
+    return src[m.start():src.index('{', m.end())] + body
 
 
 def rust_str_bytes(s):
@@ -230,15 +297,10 @@ def block_after(src, header_re):
     if not m:
         raise TranslateError('block %s not found' % header_re)
     i = src.index('{', m.end() - 1)
-    depth = 0
-    for j in range(i, len(src)):
-        if src[j] == '{':
-            depth += 1
-        elif src[j] == '}':
-            depth -= 1
-            if depth == 0:
-                return src[i:j + 1]
-    raise TranslateError('unbalanced braces after %s' % header_re)
+    j = match_brace(src, i)
+    if j < 0:
+        raise TranslateError('unbalanced braces after %s' % header_re)
+    return src[i:j]
 
 
 def field(body, name):
@@ -294,6 +356,682 @@ def offsets(repo):
     return out, consts_
 
 
+# ---------------------------------------------------------------- anchored expressions (generic, table-driven)
+# Each row of ANCHORS ties ONE integer expression or boolean condition of the Rust source to ONE generated Coq definition.
+#   name    Coq name of the generated definition
+#   file    Rust file (relative to the repo)
+#   fn      enclosing fn (its brace-balanced body is searched; `impl` = optional regex of the enclosing impl block header);
+#           None = the whole file (type declarations)
+#   pat     regex locating the statement / struct field / condition inside the fn body; group `e` captures the expression text
+#   count   how many times `pat` must match in the fn body (default 1: a second copy appearing is also a broken tie)
+#   occ     which of those matches this row is about (default 0)
+#   params  ordered list of (Rust operand, Coq parameter): the variable renaming.  A Rust operand is an identifier, a dotted path,
+#           or `path.len()`.  `*x` derefs are dropped before the lookup.  Every identifier of the expression must be listed.
+#   ty      'Z' or 'N': the Coq type of the integer parameters / result (bool-valued conditions are detected and get `: bool`)
+#   mach    the machine type the code computes the expression in (comment only: casts are dropped, the mathematical expression is
+#           emitted; coq/I32.v proves separately that no intermediate value leaves that machine type)
+#   require optional list of regexes that must also match in the fn (signature or body) (the declarations that fix the machine type of the operands,
+#           e.g. `let len = arr.len() as i32;`): when one disappears the tie is broken
+#   safe    True: also emit NAME_SAFE : Prop, the conjunction of the range obligations of evaluating the expression in `mach`:
+#           one `IN_<mach> (a op b)` per + - * / unary minus and one `IN_<T> (a)` per `a as T`, each under the path condition
+#           (branches of `if`, short-circuit of && and ||) under which the code evaluates it.  coq/I32.v proves them.
+#   kind    'expr' (default) | 'width' (group `e` captures an integer type name, the definition is its size in bytes : nat)
+#           | 'require' (no definition: only the `require` patterns are checked, a comment is emitted; used for a guard at a call
+#           site that a proof in coq/ takes as hypothesis, e.g. select_by_indices returns before convert_slice when length == 0)
+# Supported Rust syntax: integer literals (dec / hex, `_`, type suffix), identifiers and paths, iN::MIN / iN::MAX / uN::MAX,
+# + - * (binary), unary minus, parentheses, < <= > >= == !=, && || !, `if c { a } else if d { b } else { c }`, `as <int type>`
+# and `.into()` (dropped, recorded), `*x` (dropped), `x.len()`.  Anything else, a pattern that is not found, or found a
+# different number of times than `count`: TranslateError (exit 2, bin/check reports the tie broken).  Never a guess.
+# `a > b` is emitted as `b <? a` and `a >= b` as `b <=? a` (N has no gtb/geb; same shape as the rest of the model).
+# In N, `-` is refused (N.sub truncates, usize does not).
+
+INT_TYPES = {'i8': 8, 'i16': 16, 'i32': 32, 'i64': 64, 'i128': 128, 'u8': 8, 'u16': 16, 'u32': 32, 'u64': 64, 'u128': 128,
+             'usize': 64, 'isize': 64}
+
+
+def int_const(path):
+    m = re.fullmatch(r'([iu])(8|16|32|64|128)::(MIN|MAX)', path)
+    if not m:
+        return None
+    bits = int(m.group(2))
+    if m.group(1) == 'i':
+        return -(1 << (bits - 1)) if m.group(3) == 'MIN' else (1 << (bits - 1)) - 1
+    return 0 if m.group(3) == 'MIN' else (1 << bits) - 1
+
+
+TOKEN_RE = re.compile(r'\s*(?:(?P<num>0x[0-9A-Fa-f_]+|[0-9][0-9_]*)(?P<suf>(?:[iu](?:8|16|32|64|128|size))?)(?![A-Za-z0-9_])'
+                      r'|(?P<id>[A-Za-z_][A-Za-z0-9_]*)'
+                      r'|(?P<op>&&|\|\||<=|>=|==|!=|::|[-+*()<>!{}.]))')
+
+
+def tokenize(text):
+    toks = []
+    i = 0
+    text = text.rstrip()
+    while i < len(text):
+        m = TOKEN_RE.match(text, i)
+        if not m or m.end() == i:
+            raise TranslateError('unsupported syntax at %r in expression %r' % (text[i:i + 12], text))
+        if m.group('num') is not None:
+            toks.append(('num', parse_lit(m.group('num')), m.group('suf')))
+        elif m.group('id') is not None:
+            toks.append(('id', m.group('id'), None))
+        else:
+            toks.append(('op', m.group('op'), None))
+        i = m.end()
+    return toks
+
+
+class ExprParser:
+    """Rust expression subset -> AST.  AST nodes: ('lit', n) ('var', rustname) ('neg', a) ('not', a) ('bin', op, a, b)
+    ('cmp', op, a, b) ('and', a, b) ('or', a, b) ('if', c, a, b).  Casts and derefs are dropped (cast types collected)."""
+
+    def __init__(self, text):
+        self.text = text
+        self.toks = tokenize(text)
+        self.i = 0
+        self.casts = []
+
+    def err(self, what):
+        raise TranslateError('%s in expression %r' % (what, self.text))
+
+    def peek(self, k=0):
+        return self.toks[self.i + k] if self.i + k < len(self.toks) else ('eof', None, None)
+
+    def at_op(self, *ops):
+        t = self.peek()
+        return t[0] == 'op' and t[1] in ops
+
+    def at_id(self, *ids):
+        t = self.peek()
+        return t[0] == 'id' and t[1] in ids
+
+    def take(self):
+        t = self.peek()
+        self.i += 1
+        return t
+
+    def expect_op(self, op):
+        if not self.at_op(op):
+            self.err('expected %r at token %d' % (op, self.i))
+        self.i += 1
+
+    def parse(self):
+        e = self.p_or()
+        if self.peek()[0] != 'eof':
+            self.err('trailing tokens %r' % (self.toks[self.i:],))
+        return e
+
+    def p_or(self):
+        a = self.p_and()
+        while self.at_op('||'):
+            self.take()
+            a = ('or', a, self.p_and())
+        return a
+
+    def p_and(self):
+        a = self.p_cmp()
+        while self.at_op('&&'):
+            self.take()
+            a = ('and', a, self.p_cmp())
+        return a
+
+    def p_cmp(self):
+        a = self.p_add()
+        if self.at_op('<', '<=', '>', '>=', '==', '!='):
+            op = self.take()[1]
+            b = self.p_add()
+            if self.at_op('<', '<=', '>', '>=', '==', '!='):
+                self.err('chained comparison')
+            return ('cmp', op, a, b)
+        return a
+
+    def p_add(self):
+        a = self.p_mul()
+        while self.at_op('+', '-'):
+            op = self.take()[1]
+            a = ('bin', op, a, self.p_mul())
+        return a
+
+    def p_mul(self):
+        a = self.p_cast()
+        while self.at_op('*'):
+            self.take()
+            a = ('bin', '*', a, self.p_cast())
+        return a
+
+    def p_cast(self):
+        a = self.p_unary()
+        while self.at_id('as'):
+            self.take()
+            t = self.take()
+            if t[0] != 'id' or t[1] not in INT_TYPES:
+                self.err('cast to unsupported type %r' % (t[1],))
+            self.casts.append(t[1])
+            a = ('cast', t[1], a)
+        return a
+
+    def p_unary(self):
+        if self.at_op('-'):
+            self.take()
+            return ('neg', self.p_unary())
+        if self.at_op('!'):
+            self.take()
+            return ('not', self.p_unary())
+        if self.at_op('*'):          # deref
+            self.take()
+            return self.p_unary()
+        return self.p_postfix()
+
+    def p_postfix(self):
+        a = self.p_primary()
+        while self.at_op('.'):
+            t1, t2, t3 = self.peek(1), self.peek(2), self.peek(3)
+            if t1[0] != 'id':
+                self.err('unsupported postfix')
+            call = t2 == ('op', '(', None) and t3 == ('op', ')', None)
+            if call and t1[1] == 'into':
+                self.i += 4
+                self.casts.append('into')
+            elif a[0] == 'var' and call and t1[1] == 'len':
+                self.i += 4
+                a = ('var', a[1] + '.len()')
+            elif a[0] == 'var' and not call and t2 != ('op', '(', None):
+                self.i += 2
+                a = ('var', a[1] + '.' + t1[1])
+            else:
+                self.err('unsupported method call .%s' % t1[1])
+        return a
+
+    def p_primary(self):
+        t = self.peek()
+        if t[0] == 'num':
+            self.take()
+            if t[2]:
+                self.casts.append(t[2])
+            return ('lit', t[1])
+        if t[0] == 'op' and t[1] == '(':
+            self.take()
+            e = self.p_or()
+            self.expect_op(')')
+            return e
+        if t[0] == 'id' and t[1] == 'if':
+            return self.p_if()
+        if t[0] == 'id':
+            if t[1] in ('as', 'else', 'let', 'match', 'return', 'mut', 'fn', 'loop', 'while', 'for', 'unsafe', 'true', 'false'):
+                self.err('unsupported keyword %r' % t[1])
+            self.take()
+            name = t[1]
+            while self.at_op('::'):
+                self.take()
+                n = self.take()
+                if n[0] != 'id':
+                    self.err('bad path')
+                name += '::' + n[1]
+            if '::' in name:
+                c = int_const(name)
+                if c is None:
+                    self.err('unsupported path %r' % name)
+                return ('lit', c)
+            if self.at_op('('):
+                self.err('unsupported call %s(...)' % name)
+            return ('var', name)
+        self.err('unexpected token %r' % (t[1],))
+
+    def p_if(self):
+        self.take()
+        c = self.p_or()
+        self.expect_op('{')
+        a = self.p_or()
+        self.expect_op('}')
+        if not self.at_id('else'):
+            self.err('if without else')
+        self.take()
+        if self.at_id('if'):
+            b = self.p_if()
+        else:
+            self.expect_op('{')
+            b = self.p_or()
+            self.expect_op('}')
+        return ('if', c, a, b)
+
+
+def expr_kind(e, text):
+    """'int' or 'bool'; TranslateError on an ill-typed expression"""
+    def bad():
+        raise TranslateError('ill-typed expression %r' % text)
+    t = e[0]
+    if t in ('lit', 'var'):
+        return 'int'
+    if t == 'cast':
+        return 'int' if expr_kind(e[2], text) == 'int' else bad()
+    if t == 'neg':
+        return 'int' if expr_kind(e[1], text) == 'int' else bad()
+    if t == 'not':
+        return 'bool' if expr_kind(e[1], text) == 'bool' else bad()
+    if t == 'bin':
+        return 'int' if expr_kind(e[2], text) == 'int' and expr_kind(e[3], text) == 'int' else bad()
+    if t == 'cmp':
+        return 'bool' if expr_kind(e[2], text) == 'int' and expr_kind(e[3], text) == 'int' else bad()
+    if t in ('and', 'or'):
+        return 'bool' if expr_kind(e[1], text) == 'bool' and expr_kind(e[2], text) == 'bool' else bad()
+    if t == 'if':
+        ka, kb = expr_kind(e[2], text), expr_kind(e[3], text)
+        return ka if expr_kind(e[1], text) == 'bool' and ka == kb else bad()
+    bad()
+
+
+def expr_vars(e, acc):
+    if e[0] == 'var':
+        acc.append(e[1])
+    else:
+        for x in e[1:]:
+            if isinstance(x, tuple):
+                expr_vars(x, acc)
+    return acc
+
+
+def gallina(e, names, ty, text):
+    """print the AST; level: 0 atom, 40 mul, 50 add, 100 anything else (always parenthesised as an operand)"""
+    def lvl(x):
+        if x[0] == 'cast':
+            return lvl(x[2])
+        if x[0] == 'lit':
+            return 0 if x[1] >= 0 else 100
+        if x[0] == 'var':
+            return 0
+        if x[0] == 'bin':
+            return 40 if x[1] == '*' else 50
+        return 100
+
+    def paren(x, maxlvl):
+        s = pr(x)
+        return s if lvl(x) <= maxlvl else '(' + s + ')'
+
+    def pr(x):
+        t = x[0]
+        if t == 'cast':
+            return pr(x[2])
+        if t == 'lit':
+            if x[1] < 0 and ty == 'N':
+                raise TranslateError('negative constant in an N expression %r' % text)
+            return str(x[1])
+        if t == 'var':
+            if x[1] not in names:
+                raise TranslateError('unknown name %r in expression %r' % (x[1], text))
+            return names[x[1]]
+        if t == 'neg':
+            if ty == 'N':
+                raise TranslateError('unary minus in an N expression %r' % text)
+            return '- ' + paren(x[1], 0)
+        if t == 'not':
+            return 'negb ' + paren(x[1], 0)
+        if t == 'bin':
+            if x[1] == '-' and ty == 'N':
+                raise TranslateError('subtraction in an N expression %r' % text)
+            me = lvl(x)
+            return '%s %s %s' % (paren(x[2], me), x[1], paren(x[3], 40 if me == 50 else 0))
+        if t == 'cmp':
+            op, a, b = x[1], x[2], x[3]
+            if op in ('>', '>='):
+                a, b, op = b, a, {'>': '<', '>=': '<='}[op]
+            if op == '!=':
+                return 'negb (%s =? %s)' % (paren(a, 50), paren(b, 50))
+            return '%s %s %s' % (paren(a, 50), {'<': '<?', '<=': '<=?', '==': '=?'}[op], paren(b, 50))
+        if t in ('and', 'or'):
+            return '%s %s %s' % (paren(x[1], 0), '&&' if t == 'and' else '||', paren(x[2], 0))
+        if t == 'if':
+            return 'if %s then %s else %s' % (pr(x[1]), paren(x[2], 50), pr(x[3]) if x[3][0] == 'if' else paren(x[3], 50))
+        raise TranslateError('internal: node %r' % (t,))
+    return pr(e)
+
+
+def obligations(e, pc, mach, out):
+    """range obligations of evaluating e in machine type `mach` under the path condition pc (list of (cond ast, bool)):
+    every + - * and unary minus yields a value that must lie in `mach`; every `as T` must be applied to a value in T (then the
+    cast keeps the mathematical value).  `a || b` evaluates b only when a is false, `a && b` only when a is true, the branches
+    of an `if` only under the condition / its negation."""
+    t = e[0]
+    if t in ('lit', 'var'):
+        return out
+    if t == 'cast':
+        obligations(e[2], pc, mach, out)
+        if e[2][0] != 'lit':
+            out.append((pc, e[1], e[2]))
+        return out
+    if t == 'neg':
+        obligations(e[1], pc, mach, out)
+        if e[1][0] != 'lit':
+            out.append((pc, mach, e))
+        return out
+    if t == 'not':
+        return obligations(e[1], pc, mach, out)
+    if t == 'bin':
+        obligations(e[2], pc, mach, out)
+        obligations(e[3], pc, mach, out)
+        out.append((pc, mach, e))
+        return out
+    if t == 'cmp':
+        obligations(e[2], pc, mach, out)
+        return obligations(e[3], pc, mach, out)
+    if t in ('and', 'or'):
+        obligations(e[1], pc, mach, out)
+        return obligations(e[2], pc + [(e[1], t == 'and')], mach, out)
+    if t == 'if':
+        obligations(e[1], pc, mach, out)
+        obligations(e[2], pc + [(e[1], True)], mach, out)
+        return obligations(e[3], pc + [(e[1], False)], mach, out)
+    raise TranslateError('internal: node %r' % (t,))
+
+
+def safe_prop(ast, names, ty, mach, text):
+    obs = obligations(ast, [], mach, [])
+    if not obs:
+        return 'True'
+    parts = []
+    for pc, T, e in obs:
+        hyps = ''.join('(%s)%%%s = %s -> ' % (gallina(c, names, ty, text), ty, 'true' if b else 'false') for c, b in pc)
+        parts.append('(%sIN_%s (%s)%%%s)' % (hyps, T, gallina(e, names, ty, text), ty))
+    return ' /\\ '.join(parts)
+
+
+def translate_expr(text, params, ty, mach=None):
+    """Rust expression text -> (kind, Gallina body, cast types seen[, range obligations as a Prop when mach is given])"""
+    p = ExprParser(text)
+    ast = p.parse()
+    kind = expr_kind(ast, text)
+    names = dict(params)
+    used = set(expr_vars(ast, []))
+    for rust, _ in params:
+        if rust not in used:
+            raise TranslateError('operand %r no longer occurs in expression %r' % (rust, text))
+    if mach:
+        return kind, gallina(ast, names, ty, text), p.casts, safe_prop(ast, names, ty, mach, text)
+    return kind, gallina(ast, names, ty, text), p.casts
+
+
+def impl_body(src, header_re):
+    return block_after(src, header_re)
+
+
+_SRC_CACHE = {}
+
+
+def rust_src(repo, rel):
+    key = (repo, rel)
+    if key not in _SRC_CACHE:
+        _SRC_CACHE[key] = strip_comments_keep_strings(re.sub(r'/\*.*?\*/', '', open(os.path.join(repo, rel)).read(), flags=re.S))
+    return _SRC_CACHE[key]
+
+
+def cmt(text):
+    """source text made safe inside a Coq comment"""
+    return re.sub(r'\s+', ' ', text.strip()).replace('*)', '* )').replace('(*', '( *').replace('"', "''")
+
+
+def anchored(repo, row):
+    """one ANCHORS row -> list of Coq lines (comment + definition)"""
+    src = rust_src(repo, row['file'])
+    if row.get('impl'):
+        src = impl_body(src, row['impl'])
+    if row.get('fn'):
+        body = fn_body(src, row['fn'])
+        whole = fn_text(src, row['fn'])
+        where = '%s fn %s' % (row['file'], row['fn'])
+    else:
+        body = whole = src
+        where = row['file']
+    if row.get('kind') == 'require':
+        found = []
+        for rq in row['require']:
+            m = re.search(rq, whole)
+            if not m:
+                raise TranslateError('%s: %s: required context not found (pattern %s)' % (row['name'], where, rq))
+            found.append(cmt(m.group(0)))
+        return ['(* %s: %s: the source contains %s *)' % (row['name'], where, '; '.join('`%s`' % f for f in found))]
+    ms = list(re.finditer(row['pat'], body))
+    count = row.get('count', 1)
+    if len(ms) != count:
+        raise TranslateError('%s: %s: anchor found %d times, expected %d (pattern %s)' % (row['name'], where, len(ms), count, row['pat']))
+    m = ms[row.get('occ', 0)]
+    text = re.sub(r'\s+', ' ', m.group('e').strip())
+    ty = row.get('ty', 'Z')
+    if row.get('kind') == 'width':
+        if text not in INT_TYPES or text in ('usize', 'isize'):
+            raise TranslateError('%s: %s: %r is not a sized integer type' % (row['name'], where, text))
+        return ['(* %s: `%s` *)' % (where, cmt(m.group(0))),
+                'Definition %s : nat := %d%%nat.' % (row['name'], INT_TYPES[text] // 8)]
+    try:
+        safe = None
+        if row.get('safe'):
+            kind, body_, casts, safe = translate_expr(text, row['params'], ty, row['mach'])
+        else:
+            kind, body_, casts = translate_expr(text, row['params'], ty)
+    except TranslateError as e:
+        raise TranslateError('%s: %s: %s' % (row['name'], where, e))
+    seen = []
+    for p_ in [c for _, c in row['params']]:
+        if p_ not in seen:
+            seen.append(p_)
+    binder = ' (%s : %s)' % (' '.join(seen), ty) if seen else ''
+    note = 'computed in %s' % row['mach'] if row.get('mach') else ''
+    if casts:
+        note += ('; ' if note else '') + 'casts dropped: ' + ', '.join(casts)
+    for rq in row.get('require', []):
+        if not re.search(rq, whole):
+            raise TranslateError('%s: %s: required context not found (pattern %s)' % (row['name'], where, rq))
+    out = ['(* %s: `%s`%s *)' % (where, cmt(text), (' -- ' + note) if note else ''),
+           'Definition %s%s : %s := (%s)%%%s.' % (row['name'], binder, 'bool' if kind == 'bool' else ty, body_, ty)]
+    if safe is not None:
+        out.append('Definition %s_SAFE%s : Prop := %s.' % (row['name'], binder, safe))
+    return out
+
+
+
+def letmut(var):
+    return r'let\s+mut\s+' + var + r'\s*=\s*(?P<e>[^;]*);'
+
+
+def incr(var):
+    return r'(?<![\w*])' + var + r'\s*\+=\s*(?P<e>[^;]*);'
+
+
+def nrow(name, file, fn, pat, params, **kw):
+    """a row of usize arithmetic, emitted in N"""
+    d = dict(name=name, file=file, fn=fn, pat=pat, params=params, ty='N', mach='usize')
+    d.update(kw)
+    return d
+
+
+_O = [('offset', 'offset')]
+_L = [('length', 'length')]
+_OL = [('offset', 'offset'), ('length', 'length')]
+_LR = [('left_length', 'left_length'), ('right_length', 'right_length')]
+_RL = [('root_offset', 'root_offset'), ('length', 'length')]
+
+NUM = 'src/number.rs'
+_V = [('v', 'v')]
+_CE_EQ = r'(?<!else\s)if\s+(?P<e>\*v\s*==[^{]*?)\s*\{'
+_CE_GE = r'if\s+(?P<e>\*v\s*>=[^{]*?)\s*\{'
+_CE_LE = r'if\s+(?P<e>\*v\s*<=[^{]*?)\s*\{'
+_CE_W = r'\(\*v\s+as\s+(?P<e>\w+)\)\s*\.to_be_bytes\(\)'
+FN = 'src/functions.rs'
+
+SEL = 'src/jsonpath/selector.rs'
+_IL = [('index', 'index'), ('len', 'len')]
+_XL = [('idx', 'idx'), ('len', 'len')]
+_XN = [('idx', 'idx'), ('length', 'length')]
+_RESOLVE_INDEX = r'let\s+index\s*=\s*(?P<e>if\s+index\b[^;]*);'
+_RESOLVE_IDX = r'let\s+idx\s*=\s*(?P<e>if\s+\*idx\s*<[^;]*);'
+_GBK_REJECT = r'(?<!=\s)if\s+(?P<e>\*idx\b[^{]*?)\s*\{'      # an `if` statement (not `= if`) whose condition starts with *idx
+_GBK_INDEX = r'let\s+idx\s*=\s*(?P<e>if\s+\*idx\s*>=[^;]*);'
+_IF_INDEX = r'(?<!=\s)if\s+(?P<e>index\b[^{]*?)\s*\{'
+_IF_IDX = r'(?<!=\s)if\s+(?P<e>idx\b[^{]*?)\s*\{'
+_LAST = r'Index::LastIndex\(idx\)\s*=>\s*(?P<e>[^,]*),'
+
+_LEN_ARR_I32 = r'let\s+len\s*=\s*arr\.len\(\)\s*as\s+i32\s*;'
+_LEN_HDR_I32 = r'let\s+len\s*=\s*\(header\s*&\s*CONTAINER_HEADER_LEN_MASK\)\s*as\s+i32\s*;'
+_RQ_DBI_T = [r'\bindex\s*:\s*i32\b', _LEN_ARR_I32]
+_RQ_DBI_B = [r'\bindex\s*:\s*i32\b', _LEN_HDR_I32]
+_RQ_AI = [r'\bpos\s*:\s*i32\b', r'\(header\s*&\s*CONTAINER_HEADER_LEN_MASK\)\s*as\s+i32\b']
+_RQ_GBK = [r'let\s+length\s*=\s*arr\.len\(\)\s*as\s+i32\s*;', r'let\s+length\s*=\s*\(header\s*&\s*CONTAINER_HEADER_LEN_MASK\)\s*as\s+i32\s*;']
+_RQ_SEL = [r'\blength\s*:\s*i32\b', r'let\s+length\s*=\s*length\s+as\s+i64\s*;']
+
+ANCHORS = [
+    # ---- G1: index arithmetic (C20 part A) -------------------------------------------------------------------------------
+    # delete_by_index: text branch / byte branch
+    dict(name='DBI_T_RESOLVE', file=FN, fn='delete_by_index', pat=_RESOLVE_INDEX, params=_IL, mach='i32', safe=True, require=_RQ_DBI_T),
+    dict(name='DBI_T_KEEP', file=FN, fn='delete_by_index', pat=_IF_INDEX, params=_IL, mach='i32', safe=True, require=_RQ_DBI_T),
+    dict(name='DBI_B_RESOLVE', file=FN, fn='delete_jsonb_by_index', pat=_RESOLVE_INDEX, params=_IL, mach='i32', safe=True, require=_RQ_DBI_B),
+    dict(name='DBI_B_SKIP', file=FN, fn='delete_jsonb_by_index', pat=_IF_INDEX, params=_IL, mach='i32', safe=True, require=_RQ_DBI_B),
+    # array_insert_jsonb (the text branch re-encodes and calls it: one site)
+    dict(name='AI_NONARRAY_LEN', file=FN, fn='array_insert_jsonb',
+         pat=r'let\s+len\s*=\s*if\s+header\s*&\s*CONTAINER_HEADER_TYPE_MASK\s*==\s*ARRAY_CONTAINER_TAG\s*\{\s*\(header\s*&\s*CONTAINER_HEADER_LEN_MASK\)\s*as\s+i32\s*\}\s*else\s*\{\s*(?P<e>[^}]*?)\s*\}\s*;',
+         params=[], mach='i32', safe=True, require=_RQ_AI),
+    dict(name='AI_RESOLVE', file=FN, fn='array_insert_jsonb', pat=r'let\s+idx\s*=\s*(?P<e>if\s+pos\b[^;]*);',
+         params=[('pos', 'pos'), ('len', 'len')], mach='i32', safe=True, require=_RQ_AI),
+    dict(name='AI_CLAMP', file=FN, fn='array_insert_jsonb', pat=r'let\s+idx\s*=\s*(?P<e>if\s+idx\b[^;]*);', params=_XL, mach='i32', safe=True, require=_RQ_AI),
+    # get_by_keypath: occurrence 0 = Value (text) branch, occurrence 1 = byte branch
+    dict(name='GBK_T_REJECT', file=FN, fn='get_by_keypath', pat=_GBK_REJECT, count=2, occ=0, params=_XN, mach='i32', safe=True, require=_RQ_GBK),
+    dict(name='GBK_T_INDEX', file=FN, fn='get_by_keypath', pat=_GBK_INDEX, count=2, occ=0, params=_XN, mach='i32', safe=True, require=_RQ_GBK),
+    dict(name='GBK_B_REJECT', file=FN, fn='get_by_keypath', pat=_GBK_REJECT, count=2, occ=1, params=_XN, mach='i32', safe=True, require=_RQ_GBK),
+    dict(name='GBK_B_INDEX', file=FN, fn='get_by_keypath', pat=_GBK_INDEX, count=2, occ=1, params=_XN, mach='i32', safe=True, require=_RQ_GBK),
+    # delete_by_keypath: Value (text) walker / byte walker
+    dict(name='DKP_T_RESOLVE', file=FN, fn='delete_value_array_by_keypath', pat=_RESOLVE_IDX, params=_XL, mach='i32', safe=True, require=[_LEN_ARR_I32]),
+    dict(name='DKP_T_SKIP', file=FN, fn='delete_value_array_by_keypath', pat=_IF_IDX, params=_XL, mach='i32', safe=True, require=[_LEN_ARR_I32]),
+    dict(name='DKP_B_RESOLVE', file=FN, fn='delete_jsonb_array_by_keypath', pat=_RESOLVE_IDX, params=_XL, mach='i32', safe=True, require=[_LEN_HDR_I32]),
+    dict(name='DKP_B_SKIP', file=FN, fn='delete_jsonb_array_by_keypath', pat=_IF_IDX, params=_XL, mach='i32', safe=True, require=[_LEN_HDR_I32]),
+    # selector.rs convert_index / convert_slice
+    dict(name='CI_LAST', file=SEL, fn='convert_index', pat=_LAST, params=_XN, mach='i64', safe=True, require=_RQ_SEL),
+    dict(name='CI_INRANGE', file=SEL, fn='convert_index', pat=_IF_IDX, params=_XN, mach='i64', safe=True, require=_RQ_SEL),
+    dict(name='CS_START_LAST', file=SEL, fn='convert_slice', pat=_LAST, count=2, occ=0, params=_XN, mach='i64', safe=True, require=_RQ_SEL),
+    dict(name='CS_END_LAST', file=SEL, fn='convert_slice', pat=_LAST, count=2, occ=1, params=_XN, mach='i64', safe=True, require=_RQ_SEL),
+    dict(name='CS_EMPTY', file=SEL, fn='convert_slice', pat=r'(?<!=\s)if\s+(?P<e>start\b[^{]*?)\s*\{',
+         params=[('start', 'start'), ('end', 'stop'), ('length', 'length')], mach='i64', safe=True, require=_RQ_SEL),
+    dict(name='SBI_NONEMPTY', kind='require', file=SEL, fn='select_by_indices',      # hypothesis 0 < length of I32.CS_bounds_safe
+         require=[r'if\s+ty\s*!=\s*ARRAY_CONTAINER_TAG\s*\|\|\s*length\s*==\s*0\s*\{\s*return\s+Ok\(\(\)\)\s*;\s*\}']),
+    dict(name='CS_LO', file=SEL, fn='convert_slice', pat=r'let\s+start\s*=\s*(?P<e>if\s+start\b[^;]*);', params=[('start', 'start')], mach='i64', safe=True, require=_RQ_SEL),
+    dict(name='CS_HI', file=SEL, fn='convert_slice', pat=r'let\s+end\s*=\s*(?P<e>if\s+end\b[^;]*);',
+         params=[('end', 'stop'), ('length', 'length')], mach='i64', safe=True, require=_RQ_SEL),
+    # ---- G2: offsets of the read-only byte walkers (C05 C04 C14 C03 C08), usize arithmetic, type N ----------------------------
+    # get_jentry_by_index
+    nrow('JBI_REJECT', FN, 'get_jentry_by_index', _IF_INDEX, [('index', 'index'), ('length', 'length')]),
+    nrow('JBI_JOFF', FN, 'get_jentry_by_index', letmut('jentry_offset'), _O),
+    nrow('JBI_VOFF', FN, 'get_jentry_by_index', letmut('val_offset'), _OL),
+    nrow('JBI_ADVANCE', FN, 'get_jentry_by_index', r'(?<!=\s)if\s+(?P<e>i\b[^{]*?)\s*\{', [('i', 'i'), ('index', 'index')]),
+    nrow('JBI_JSTEP', FN, 'get_jentry_by_index', incr('jentry_offset'), []),
+    # get_jentry_by_name
+    nrow('JBN_JOFF', FN, 'get_jentry_by_name', letmut('jentry_offset'), _O),
+    nrow('JBN_VOFF', FN, 'get_jentry_by_name', letmut('val_offset'), _OL),
+    nrow('JBN_KOFF', FN, 'get_jentry_by_name', letmut('key_offset'), _OL),
+    nrow('JBN_JSTEP1', FN, 'get_jentry_by_name', incr('jentry_offset'), [], count=2, occ=0),
+    nrow('JBN_JSTEP2', FN, 'get_jentry_by_name', incr('jentry_offset'), [], count=2, occ=1),
+    # object_keys
+    nrow('OKS_JOFF', FN, 'object_keys', letmut('jentry_offset'), []),
+    nrow('OKS_KOFF', FN, 'object_keys', letmut('key_offset'), _L),
+    nrow('OKS_PREV_KOFF', FN, 'object_keys', letmut('prev_key_offset'), _L),
+    nrow('OKS_JSTEP', FN, 'object_keys', incr('jentry_offset'), []),
+    # object_each
+    nrow('OEA_OFF0', FN, 'object_each', letmut('offset'), []),
+    nrow('OEA_WORDS', FN, 'object_each', r'for\s+_\s+in\s+0\.\.(?P<e>[^{]*?)\s*\{', _L, count=3, occ=0),
+    nrow('OEA_STEP', FN, 'object_each', r'\boffset\s*\+=\s*(?P<e>[0-9][^;]*);', []),
+    # array_values
+    nrow('AVS_JOFF', FN, 'array_values', letmut('jentry_offset'), []),
+    nrow('AVS_VOFF', FN, 'array_values', letmut('val_offset'), _L),
+    nrow('AVS_JSTEP', FN, 'array_values', incr('jentry_offset'), []),
+    # compare_container -> compare_array / compare_object: the slices passed on skip the header
+    nrow('CMP_ARR_LSKIP', FN, 'compare_container', r'compare_array\(\s*left_header\s*,\s*&left\[(?P<e>[^.\]]*)\.\.\]', []),
+    nrow('CMP_ARR_RSKIP', FN, 'compare_container', r'compare_array\([^;)]*right_header\s*,\s*&right\[(?P<e>[^.\]]*)\.\.\]', []),
+    nrow('CMP_OBJ_LSKIP', FN, 'compare_container', r'compare_object\(\s*left_header\s*,\s*&left\[(?P<e>[^.\]]*)\.\.\]', []),
+    nrow('CMP_OBJ_RSKIP', FN, 'compare_container', r'compare_object\([^;)]*right_header\s*,\s*&right\[(?P<e>[^.\]]*)\.\.\]', []),
+    # compare (top level): the same slices, and the entry word / payload of a scalar document
+    nrow('CPR_ARR_LSKIP', FN, 'compare', r'compare_array\(\s*left_header\s*,\s*&left\[(?P<e>[^.\]]*)\.\.\]', []),
+    nrow('CPR_ARR_RSKIP', FN, 'compare', r'compare_array\([^;)]*right_header\s*,\s*&right\[(?P<e>[^.\]]*)\.\.\]', []),
+    nrow('CPR_OBJ_LSKIP', FN, 'compare', r'compare_object\(\s*left_header\s*,\s*&left\[(?P<e>[^.\]]*)\.\.\]', []),
+    nrow('CPR_OBJ_RSKIP', FN, 'compare', r'compare_object\([^;)]*right_header\s*,\s*&right\[(?P<e>[^.\]]*)\.\.\]', []),
+    nrow('CPR_SC_LSKIP', FN, 'compare', r'compare_scalar\(\s*&left_jentry\s*,\s*&left\[(?P<e>[^.\]]*)\.\.\]', []),
+    nrow('CPR_SC_RSKIP', FN, 'compare', r'compare_scalar\([^;)]*&right_jentry\s*,\s*&right\[(?P<e>[^.\]]*)\.\.\]', []),
+    nrow('CPR_SC_LJOFF', FN, 'compare', r'let\s+left_encoded\s*=\s*read_u32\(\s*left\s*,\s*(?P<e>[^)]*)\)', [], count=2, occ=0),
+    nrow('CPR_SC_RJOFF', FN, 'compare', r'let\s+right_encoded\s*=\s*read_u32\(\s*right\s*,\s*(?P<e>[^)]*)\)', [], count=2, occ=0),
+    nrow('CPR_MIX_LJOFF', FN, 'compare', r'let\s+left_encoded\s*=\s*read_u32\(\s*left\s*,\s*(?P<e>[^)]*)\)', [], count=2, occ=1),
+    nrow('CPR_MIX_RJOFF', FN, 'compare', r'let\s+right_encoded\s*=\s*read_u32\(\s*right\s*,\s*(?P<e>[^)]*)\)', [], count=2, occ=1),
+    # compare_array
+    nrow('CMA_JOFF', FN, 'compare_array', letmut('jentry_offset'), []),
+    nrow('CMA_LVOFF', FN, 'compare_array', letmut('left_val_offset'), [('left_length', 'left_length')]),
+    nrow('CMA_RVOFF', FN, 'compare_array', letmut('right_val_offset'), [('right_length', 'right_length')]),
+    nrow('CMA_LEN', FN, 'compare_array', r'let\s+length\s*=\s*(?P<e>if\b[^;]*);', _LR),
+    nrow('CMA_JSTEP', FN, 'compare_array', incr('jentry_offset'), []),
+    # compare_object
+    nrow('CMO_LJOFF', FN, 'compare_object', letmut('left_jentry_offset'), []),
+    nrow('CMO_RJOFF', FN, 'compare_object', letmut('right_jentry_offset'), []),
+    nrow('CMO_LVOFF', FN, 'compare_object', letmut('left_val_offset'), [('left_length', 'left_length')]),
+    nrow('CMO_RVOFF', FN, 'compare_object', letmut('right_val_offset'), [('right_length', 'right_length')]),
+    nrow('CMO_LKOFF', FN, 'compare_object', letmut('left_key_offset'), [('left_length', 'left_length')]),
+    nrow('CMO_RKOFF', FN, 'compare_object', letmut('right_key_offset'), [('right_length', 'right_length')]),
+    nrow('CMO_LEN', FN, 'compare_object', r'let\s+length\s*=\s*(?P<e>if\b[^;]*);', _LR),
+    nrow('CMO_LJSTEP1', FN, 'compare_object', incr('left_jentry_offset'), [], count=2, occ=0),
+    nrow('CMO_LJSTEP2', FN, 'compare_object', incr('left_jentry_offset'), [], count=2, occ=1),
+    nrow('CMO_RJSTEP1', FN, 'compare_object', incr('right_jentry_offset'), [], count=2, occ=0),
+    nrow('CMO_RJSTEP2', FN, 'compare_object', incr('right_jentry_offset'), [], count=2, occ=1),
+    # convert_to_comparable
+    nrow('CVC_ARR_SKIP', FN, 'scalar_convert_to_comparable', r'array_convert_to_comparable\([^;]*&value\[(?P<e>[^.\]]*)\.\.\]', []),
+    nrow('CVC_OBJ_SKIP', FN, 'scalar_convert_to_comparable', r'object_convert_to_comparable\([^;]*&value\[(?P<e>[^.\]]*)\.\.\]', []),
+    nrow('CVA_JOFF', FN, 'array_convert_to_comparable', letmut('jentry_offset'), []),
+    nrow('CVA_VOFF', FN, 'array_convert_to_comparable', letmut('val_offset'), _L),
+    nrow('CVA_JSTEP', FN, 'array_convert_to_comparable', incr('jentry_offset'), []),
+    nrow('CVO_JOFF', FN, 'object_convert_to_comparable', letmut('jentry_offset'), []),
+    nrow('CVO_VOFF', FN, 'object_convert_to_comparable', letmut('val_offset'), _L),
+    nrow('CVO_KOFF', FN, 'object_convert_to_comparable', letmut('key_offset'), _L),
+    nrow('CVO_JSTEP1', FN, 'object_convert_to_comparable', incr('jentry_offset'), [], count=2, occ=0),
+    nrow('CVO_JSTEP2', FN, 'object_convert_to_comparable', incr('jentry_offset'), [], count=2, occ=1),
+    # container_to_string / scalar_to_string (occurrences: scalar, array, object arm)
+    nrow('CTS_SC_JOFF', FN, 'container_to_string', letmut('jentry_offset'), _O, count=3, occ=0),
+    nrow('CTS_SC_VOFF', FN, 'container_to_string', letmut('value_offset'), _O, count=3, occ=0),
+    nrow('CTS_ARR_JOFF', FN, 'container_to_string', letmut('jentry_offset'), _O, count=3, occ=1),
+    nrow('CTS_ARR_VOFF', FN, 'container_to_string', letmut('value_offset'), _OL, count=3, occ=1),
+    nrow('CTS_OBJ_JOFF', FN, 'container_to_string', letmut('jentry_offset'), _O, count=3, occ=2),
+    nrow('CTS_OBJ_KOFF', FN, 'container_to_string', letmut('key_offset'), _OL),
+    nrow('CTS_OBJ_VOFF', FN, 'container_to_string', letmut('value_offset'), [('key_offset', 'key_offset')], count=3, occ=2),
+    nrow('CTS_OBJ_JSTEP', FN, 'container_to_string', incr('jentry_offset'), []),
+    nrow('STS_JSTEP', FN, 'scalar_to_string', r'\*jentry_offset\s*\+=\s*(?P<e>[^;]*);', []),
+    # selector.rs
+    nrow('SOV_OFF', SEL, 'select_object_values', letmut('offset'), _RL),
+    nrow('SAV_OFF', SEL, 'select_array_values', letmut('offset'), _RL),
+    nrow('SBN_OFF', SEL, 'select_by_name', letmut('offset'), _RL),
+    nrow('SBI_OFF', SEL, 'select_by_indices', letmut('offset'), _RL),
+    nrow('BSA_RESERVE', SEL, 'build_scalar_array', r'data\.resize\(\s*(?P<e>[^,]*),\s*0\s*\)\s*;', [('jentry_offset', 'jentry_offset'), ('len', 'len')]),
+    nrow('BSA_JSTEP', SEL, 'build_scalar_array', incr('jentry_offset'), []),
+    # ---- G3: width selection of Number::compact_encode (C01 C18) ----------------------------------------------------------------
+    dict(name='CE_INT_ZERO', file=NUM, fn='compact_encode', pat=_CE_EQ, count=2, occ=0, params=_V, ty='Z', mach='i64'),
+    dict(name='CE_INT_FITS1', file=NUM, fn='compact_encode', pat=_CE_GE, count=3, occ=0, params=_V, ty='Z', mach='i64'),
+    dict(name='CE_INT_FITS2', file=NUM, fn='compact_encode', pat=_CE_GE, count=3, occ=1, params=_V, ty='Z', mach='i64'),
+    dict(name='CE_INT_FITS3', file=NUM, fn='compact_encode', pat=_CE_GE, count=3, occ=2, params=_V, ty='Z', mach='i64'),
+    dict(name='CE_UINT_ZERO', file=NUM, fn='compact_encode', pat=_CE_EQ, count=2, occ=1, params=_V, ty='N', mach='u64'),
+    dict(name='CE_UINT_FITS1', file=NUM, fn='compact_encode', pat=_CE_LE, count=3, occ=0, params=_V, ty='N', mach='u64'),
+    dict(name='CE_UINT_FITS2', file=NUM, fn='compact_encode', pat=_CE_LE, count=3, occ=1, params=_V, ty='N', mach='u64'),
+    dict(name='CE_UINT_FITS3', file=NUM, fn='compact_encode', pat=_CE_LE, count=3, occ=2, params=_V, ty='N', mach='u64'),
+    # the widths written: `(*v as iN).to_be_bytes()` in the three narrow branches, the variant's own type in the last one
+    dict(name='CE_INT_W1', kind='width', file=NUM, fn='compact_encode', pat=_CE_W, count=6, occ=0),
+    dict(name='CE_INT_W2', kind='width', file=NUM, fn='compact_encode', pat=_CE_W, count=6, occ=1),
+    dict(name='CE_INT_W3', kind='width', file=NUM, fn='compact_encode', pat=_CE_W, count=6, occ=2),
+    dict(name='CE_INT_W4', kind='width', file=NUM, fn=None, pat=r'enum\s+Number\s*\{\s*Int64\((?P<e>\w+)\)\s*,'),
+    dict(name='CE_UINT_W1', kind='width', file=NUM, fn='compact_encode', pat=_CE_W, count=6, occ=3),
+    dict(name='CE_UINT_W2', kind='width', file=NUM, fn='compact_encode', pat=_CE_W, count=6, occ=4),
+    dict(name='CE_UINT_W3', kind='width', file=NUM, fn='compact_encode', pat=_CE_W, count=6, occ=5),
+    dict(name='CE_UINT_W4', kind='width', file=NUM, fn=None, pat=r'enum\s+Number\s*\{[^}]*?\bUInt64\((?P<e>\w+)\)\s*,'),
+    dict(name='CE_WIDE_BRANCHES', kind='require', file=NUM, fn='compact_encode',      # the last branch writes the variant's own type
+         require=[r'\}\s*else\s*\{\s*writer\.write_all\(&v\.to_be_bytes\(\)\)\?;\s*Ok\(9\)\s*\}\s*\}\s*Self::UInt64',
+                  r'\}\s*else\s*\{\s*writer\.write_all\(&v\.to_be_bytes\(\)\)\?;\s*Ok\(9\)\s*\}\s*\}\s*Self::Float64']),
+]
+
+
+def anchors(repo):
+    L = []
+    for row in ANCHORS:
+        L.extend(anchored(repo, row))
+    return L
+
+
 def coq_list(xs):
     return '[' + '; '.join(str(x) for x in xs) + ']'
 
@@ -306,9 +1044,10 @@ def generate(repo):
     jsonb_set = is_jsonb_set(repo, C)
     delims = raw_string_delims(repo)
     offs, offc = offsets(repo)
+    anch = anchors(repo)
     L = []
     L.append('(* GENERATED by tools/translate_consts.py from the working tree of /repo. Do not edit. *)')
-    L.append('From Coq Require Import NArith List.')
+    L.append('From Coq Require Import NArith ZArith Bool List.')
     L.append('Import ListNotations.')
     L.append('Open Scope N_scope.')
     L.append('')
@@ -340,14 +1079,163 @@ def generate(repo):
     for name, v in offc:
         L.append('Definition %s : N := %d.' % (name, v))
     L.append('')
+    L.append('(* value ranges of the machine integer types *)')
+    for T in ('i8', 'i16', 'i32', 'i64', 'u8', 'u16', 'u32', 'u64', 'usize'):
+        bits = INT_TYPES[T]
+        lo, hi = (-(1 << (bits - 1)), (1 << (bits - 1)) - 1) if T[0] == 'i' else (0, (1 << bits) - 1)
+        L.append('Definition IN_%s (z : Z) : Prop := (%s <= z <= %d)%%Z.' % (T, lo, hi))
+    L.append('(* anchored expressions (table ANCHORS of the translator): integer expressions and conditions, as written in the source *)')
+    L.extend(anch)
+    L.append('')
     return '\n'.join(L)
+
+
+# ---------------------------------------------------------------- self-test: single-token mutations of the sources
+# (file, fn the text must lie in (None = anywhere), old text, new text, occurrence inside that fn).  For every mutation the translator,
+# run on a mutated COPY of the sources, must either exit with TranslateError or produce a different Constants.v: then the
+# proofs are re-checked against the mutated formula.  "Same output" = the mutation went unnoticed = the self-test fails.
+MUTATIONS = [
+    # G1
+    (FN, 'delete_by_index', 'if index < 0 { len + index }', 'if index <= 0 { len + index }', 0),
+    (FN, 'delete_by_index', 'index >= 0 && index < len', 'index >= 0 && index <= len', 0),
+    (FN, 'delete_jsonb_by_index', 'index >= len', 'index > len', 0),
+    (FN, 'delete_jsonb_by_index', 'len + index', 'len - index', 0),
+    (FN, 'delete_jsonb_by_index', 'as i32', 'as i64', 0),
+    (FN, 'array_insert_jsonb', 'len + pos', 'len + pos + 1', 0),
+    (FN, 'array_insert_jsonb', 'idx > len', 'idx >= len', 0),
+    (FN, 'array_insert_jsonb', '        1\n', '        0\n', 0),
+    (FN, 'get_by_keypath', '*idx > length', '*idx >= length', 0),
+    (FN, 'get_by_keypath', '*idx > length', '*idx >= length', 1),
+    (FN, 'get_by_keypath', 'length + *idx < 0', 'length + *idx <= 0', 1),
+    (FN, 'get_by_keypath', '(length + *idx) as usize', '(length - *idx) as usize', 1),
+    (FN, 'get_by_keypath', 'if *idx > length || length + *idx < 0 {', 'if *idx > length {', 0),
+    (FN, 'delete_value_array_by_keypath', 'idx >= len', 'idx > len', 0),
+    (FN, 'delete_jsonb_array_by_keypath', 'if *idx < 0 { len + *idx }', 'if *idx < 0 { len + *idx - 1 }', 0),
+    (FN, 'delete_jsonb_array_by_keypath', 'idx < 0 || idx >= len', 'idx >= len', 0),
+    (SEL, 'convert_index', 'length + *idx as i64 - 1', 'length + *idx as i64', 0),
+    (SEL, 'convert_index', 'idx < length', 'idx <= length', 0),
+    (SEL, 'convert_index', 'let length = length as i64;', 'let length = length as i32;', 0),
+    (SEL, 'convert_slice', 'length + *idx as i64 - 1', 'length + *idx as i64 - 2', 1),
+    (SEL, 'convert_slice', 'start >= length', 'start > length', 0),
+    (SEL, 'convert_slice', '(length - 1) as usize', 'length as usize', 0),
+    (SEL, 'convert_slice', 'if start < 0 { 0 }', 'if start < 0 { 1 }', 0),
+    (SEL, 'select_by_indices', '|| length == 0', '', 0),
+    # G2
+    (FN, 'get_jentry_by_index', 'offset + 4 * length + 4', 'offset + 4 * length + 8', 0),
+    (FN, 'get_jentry_by_index', 'let mut jentry_offset = offset + 4;', 'let mut jentry_offset = offset + 8;', 0),
+    (FN, 'get_jentry_by_index', 'index >= length', 'index > length', 0),
+    (FN, 'get_jentry_by_index', 'if i < index', 'if i <= index', 0),
+    (FN, 'get_jentry_by_index', 'jentry_offset += 4;', 'jentry_offset += 8;', 0),
+    (FN, 'get_jentry_by_name', 'offset + 8 * length + 4', 'offset + 4 * length + 4', 0),
+    (FN, 'get_jentry_by_name', 'offset + 8 * length + 4', 'offset + 8 * length', 1),
+    (FN, 'get_jentry_by_name', 'jentry_offset += 4;', 'jentry_offset += 2;', 1),
+    (FN, 'object_keys', 'let mut prev_key_offset = 8 * length + 4;', 'let mut prev_key_offset = 8 * length;', 0),
+    (FN, 'object_keys', 'let mut jentry_offset = 4;', 'let mut jentry_offset = 0;', 0),
+    (FN, 'object_each', '0..length * 2', '0..length', 0),
+    (FN, 'object_each', 'offset += 4;', 'offset += 8;', 0),
+    (FN, 'array_values', '4 * length + 4', '4 * length', 0),
+    (FN, 'compare_container', '&left[4..], right_header', '&left[8..], right_header', 0),
+    (FN, 'compare', '&right[8..]', '&right[4..]', 0),
+    (FN, 'compare_array', 'let mut right_val_offset = 4 * right_length;', 'let mut right_val_offset = 4 * left_length;', 0),
+    (FN, 'compare_array', 'left_length <= right_length', 'left_length >= right_length', 0),
+    (FN, 'compare_object', 'let mut left_key_offset = 8 * left_length;', 'let mut left_key_offset = 4 * left_length;', 0),
+    (FN, 'compare_object', 'right_jentry_offset += 4;', 'right_jentry_offset += 8;', 1),
+    (FN, 'scalar_convert_to_comparable', '&value[4..]', '&value[0..]', 1),
+    (FN, 'array_convert_to_comparable', '4 * length', '8 * length', 0),
+    (FN, 'object_convert_to_comparable', 'let mut key_offset = 8 * length;', 'let mut key_offset = 8 * length + 4;', 0),
+    (FN, 'container_to_string', '4 + *offset + 4 * length', '4 + *offset + 8 * length', 0),
+    (FN, 'container_to_string', 'let mut value_offset = 8 + *offset;', 'let mut value_offset = 4 + *offset;', 0),
+    (FN, 'container_to_string', 'let mut value_offset = key_offset;', 'let mut value_offset = key_offset + 4;', 0),
+    (FN, 'scalar_to_string', '*jentry_offset += 4;', '*jentry_offset += 8;', 0),
+    (SEL, 'select_object_values', 'root_offset + 4 + length * 8', 'root_offset + 4 + length * 4', 0),
+    (SEL, 'select_array_values', 'root_offset + 4 + length * 4', 'root_offset + length * 4', 0),
+    (SEL, 'select_by_name', 'root_offset + 4 + length * 8', 'root_offset + 8 + length * 8', 0),
+    (SEL, 'select_by_indices', 'root_offset + 4 + length * 4', 'root_offset + 4 + length * 8', 0),
+    (SEL, 'build_scalar_array', 'jentry_offset + 4 * len', 'jentry_offset + 8 * len', 0),
+    # G3
+    (NUM, 'compact_encode', '*v <= i8::MAX.into()', '*v < i8::MAX.into()', 0),
+    (NUM, 'compact_encode', '*v >= i16::MIN.into()', '*v >= i8::MIN.into()', 0),
+    (NUM, 'compact_encode', '*v <= i32::MAX.into()', '*v <= u32::MAX.into()', 0),
+    (NUM, 'compact_encode', '*v <= u8::MAX.into()', '*v <= i8::MAX.into()', 0),
+    (NUM, 'compact_encode', '*v <= u16::MAX.into()', '*v < u16::MAX.into()', 0),
+    (NUM, 'compact_encode', '(*v as i16)', '(*v as i32)', 0),
+    (NUM, 'compact_encode', '(*v as u32)', '(*v as u16)', 0),
+    (NUM, 'compact_encode', '*v == 0', '*v == 1', 1),
+    (NUM, None, 'Int64(i64),', 'Int64(i32),', 0),
+]
+
+
+def fn_span(src, name):
+    m = re.search(r'fn\s+' + re.escape(name) + r'\b', src)
+    if not m:
+        raise TranslateError('selftest: function %s not found' % name)
+    j = match_brace(src, src.index('{', m.end()))
+    if j < 0:
+        raise TranslateError('selftest: unbalanced braces in %s' % name)
+    return m.start(), j
+
+
+def mutate(src, fn, old, new, occ):
+    a, b = fn_span(src, fn) if fn else (0, len(src))
+    pos = a - 1
+    for _ in range(occ + 1):
+        pos = src.find(old, pos + 1, b)
+        if pos < 0:
+            raise TranslateError('selftest: %r (occurrence %d) not found in fn %s' % (old, occ, fn))
+    return src[:pos] + new + src[pos + len(old):]
+
+
+def selftest(repo, verbose=True):
+    """returns the number of unnoticed mutations (0 = pass)"""
+    import tempfile, shutil
+    base = generate(repo)
+    unnoticed = 0
+    skipped = 0
+    for k, (rel, fn, old, new, occ) in enumerate(MUTATIONS):
+        tmp = tempfile.mkdtemp(prefix='jbmut')
+        try:
+            shutil.copytree(os.path.join(repo, 'src'), os.path.join(tmp, 'src'))
+            path = os.path.join(tmp, rel)
+            src = strip_comments_keep_strings(re.sub(r'/\*.*?\*/', '', open(path).read(), flags=re.S))   # as the translator reads it
+            try:
+                open(path, 'w').write(mutate(src, fn, old.replace('\\n', '\n'), new.replace('\\n', '\n'), occ))
+            except TranslateError as e:
+                skipped += 1
+                if verbose:
+                    print('mutation %2d  %s fn %s: %r: SKIPPED, the source text to mutate is not there (%s)' % (k, os.path.basename(rel), fn, old, e))
+                continue
+            _SRC_CACHE.clear()
+            try:
+                out = generate(tmp)
+                verdict = 'definitions differ' if out != base else 'UNNOTICED'
+                if out != base:
+                    changed = [l.split()[1] for l in out.split('\n') if l.startswith('Definition') and l not in base]
+                    verdict += ' (%s)' % ', '.join(changed) if changed else ' (comment only)'
+            except TranslateError as e:
+                verdict = 'tie broken (exit 2): %s' % str(e)[:110]
+            if verdict == 'UNNOTICED':
+                unnoticed += 1
+            if verbose:
+                print('mutation %2d  %s fn %s: %r -> %r [#%d]: %s' % (k, os.path.basename(rel), fn, old, new, occ, verdict))
+        finally:
+            shutil.rmtree(tmp, ignore_errors=True)
+            _SRC_CACHE.clear()
+    print('selftest: %d mutations, %d unnoticed, %d skipped' % (len(MUTATIONS), unnoticed, skipped))
+    return unnoticed
 
 
 def main():
     ap = argparse.ArgumentParser()
     ap.add_argument('--repo', default='/repo')
     ap.add_argument('--out')
+    ap.add_argument('--selftest', action='store_true', help='apply MUTATIONS to a copy of the sources; every one must change the output or break the tie')
     a = ap.parse_args()
+    if a.selftest:
+        try:
+            sys.exit(1 if selftest(a.repo) else 0)
+        except (TranslateError, OSError, ValueError, KeyError) as e:
+            sys.stderr.write('translate_consts: %s\n' % e)
+            sys.exit(2)
     try:
         text = generate(a.repo)
     except (TranslateError, OSError, ValueError, KeyError) as e:
